@@ -69,6 +69,9 @@ func (s *Store) SetWithLog(key string, sum []byte, rl *ref.Reflog) error {
 		row := tx.QueryRow(`SELECT sum FROM refs WHERE name = ?`, key)
 		oldSum := make([]byte, 16)
 		if err := row.Scan(&oldSum); err != nil {
+			if err != sql.ErrNoRows {
+				return err
+			}
 			oldSum = nil
 		}
 		if _, err := tx.Exec(
